@@ -277,4 +277,155 @@ theorem untypedFields_keys : ∀ (fi : Dy → Bool) (fs : Fields) (jfs : JFields
       simp [unmarshalUntypedFields, Fields.keys, untypedFields_keys fi fs js hjs]
     · cases h
 
+theorem noIntFloat_get : ∀ (xs : Vals), noIntegralFloatList xs = true → ∀ i x, xs.get? i = .some x → noIntegralFloat x = true
+  | .nil, _, i, x, h => by simp [Vals.get?] at h
+  | .cons y ys, hw, i, x, h => by
+    simp only [noIntegralFloatList, Bool.and_eq_true] at hw
+    cases i with
+    | zero => simp [Vals.get?] at h; subst h; exact hw.1
+    | succ i => exact noIntFloat_get ys hw.2 i x (by simpa [Vals.get?] using h)
+
+theorem noIntFloat_mem : ∀ (fs : Fields), noIntegralFloatFields fs = true → ∀ k a, (k, a) ∈ fs.toList → noIntegralFloat a = true
+  | .nil, _, k, a, hm => by simp [Fields.toList] at hm
+  | .cons k' a' as, hw, k, a, hm => by
+    simp only [noIntegralFloatFields, Bool.and_eq_true] at hw
+    simp only [Fields.toList, List.mem_cons, Prod.mk.injEq] at hm
+    rcases hm with ⟨rfl, rfl⟩ | hm
+    · exact hw.1
+    · exact noIntFloat_mem as hw.2 k a hm
+
+theorem rtp_list (fi : Dy → Bool) (t : Ty) (p : Path) : ∀ (xs : Vals), (∀ i x, xs.get? i = .some x → RTP fi t x) → ∀ n : Nat,
+    ∃ js vs', marshalList fi xs = .some js ∧
+      castVals (fun i x => castAll false t x (p ++ [.index i])) n (unmarshalUntypedList js) = .ok vs'
+      ∧ Vals.isEqual vs' xs = true ∧ vs'.length = xs.length
+  | .nil, _, n => ⟨.nil, .nil, by simp [marshalList, unmarshalUntypedList, castVals, Vals.isEqual, Vals.length]⟩
+  | .cons x xs, h, n => by
+    obtain ⟨j, v', h1, h2, h3⟩ := h 0 x (by simp [Vals.get?]) (p ++ [.index n])
+    obtain ⟨js, vs', g1, g2, g3, g4⟩ := rtp_list fi t p xs (fun i y hy => h (i + 1) y (by simpa [Vals.get?] using hy)) (n + 1)
+    exact ⟨.cons j js, .cons v' vs', by simp [marshalList, h1, g1], by simp [unmarshalUntypedList, castVals, h2, g2],
+      by simp [Vals.isEqual, h3, g3], by simp [Vals.length, g4]⟩
+
+open HmsProofs.Lemmas.ValCast in
+theorem rtp_assemble (fs ufs : Fields) (p : Path) : ∀ (tfs : TyFields),
+    (∀ k t, (k, t) ∈ tfs.toList → ∃ x u v', fs.lookup k = .some x ∧ ufs.lookup k = .some u ∧
+        castAll false t u (p ++ [.field k]) = .ok v' ∧ v'.isEqual x = true) →
+    (castFields false tfs ufs p).errs = [] ∧ (castFields false tfs ufs p).missing = .none ∧
+      (castFields false tfs ufs p).out.keys = tfs.keys ∧
+      ∀ k x', (k, x') ∈ (castFields false tfs ufs p).out.toList → ∃ x, fs.lookup k = .some x ∧ x'.isEqual x = true
+  | .nil, _ => by simp [castFields, Fields.keys, TyFields.keys, Fields.toList]
+  | .cons k t rest, h => by
+    obtain ⟨x, u, v', h1, h2, h3, h4⟩ := h k t (by simp [TyFields.toList])
+    obtain ⟨g1, g2, g3, g4⟩ := rtp_assemble fs ufs p rest (fun k' t' hm => h k' t' (by simp [TyFields.toList, hm]))
+    rw [castFields_cons_ok h2 h3]
+    refine ⟨g1, g2, by simp [Fields.keys, TyFields.keys, g3], ?_⟩
+    intro k2 y hy
+    simp only [Fields.toList, List.mem_cons, Prod.mk.injEq] at hy
+    rcases hy with ⟨rfl, rfl⟩ | hy
+    · exact ⟨x, h1, h4⟩
+    · exact g4 k2 y hy
+
+mutual
+theorem rt_prog (fi : Dy → Bool) : ∀ (T : Ty), T.wf = true → ∀ (v : Val), v.wf = true →
+    jsonRepr T v = true → noIntegralFloat v = true → RTP fi T v
+  | .int, _, v, _, hr, _ => by
+    cases v with
+    | int i =>
+      simp [jsonRepr] at hr
+      intro p
+      exact ⟨.num (intToFlt i) true, .int i, by simp [marshalWith],
+        by simp [unmarshalUntyped, intToFlt_small i hr, isIntegral_ofInt, fltToInt_ofInt, castAll], by simp [Val.isEqual]⟩
+    | _ => simp [jsonRepr] at hr
+  | .float, _, v, _, hr, hf => by
+    cases v with
+    | flt d =>
+      simp only [noIntegralFloat, Bool.not_eq_true'] at hf
+      intro p
+      exact ⟨.num d (fi d), .flt d, by simp [marshalWith], by simp [unmarshalUntyped, hf, castAll], by simp [Val.isEqual]⟩
+    | _ => simp [jsonRepr] at hr
+  | .bool, _, v, _, hr, _ => by
+    cases v with
+    | bool b => intro p; exact ⟨.bool b, .bool b, by simp [marshalWith], by simp [unmarshalUntyped, castAll], by simp [Val.isEqual]⟩
+    | _ => simp [jsonRepr] at hr
+  | .str, _, v, _, hr, _ => by
+    cases v with
+    | str z => intro p; exact ⟨.str z, .str z, by simp [marshalWith], by simp [unmarshalUntyped, castAll], by simp [Val.isEqual]⟩
+    | _ => simp [jsonRepr] at hr
+  | .any, _, v, _, hr, _ | .null, _, v, _, hr, _ | .range, _, v, _, hr, _ | .anyobj, _, v, _, hr, _ | .fn, _, v, _, hr, _ => by
+    simp [jsonRepr] at hr
+  | .opt t, hT, v, hw, hr, hf => by
+    simp only [Ty.wf] at hT
+    simp only [jsonRepr, Bool.and_eq_true, Bool.not_eq_true'] at hr
+    cases v <;> simp at hr
+    · intro p
+      exact ⟨.null, .none, by simp [marshalWith], by simp [unmarshalUntyped, castAll], by simp [Val.isEqual]⟩
+    · rename_i x
+      simp only [Val.wf, noIntegralFloat] at hw hf
+      intro p
+      obtain ⟨j, v', h1, h2, h3⟩ := rt_prog fi t hT x hw hr.2 hf p
+      have hnn := marshal_not_null fi t x j hr.2 hr.1 h1
+      exact ⟨j, .some v', by simp [marshalWith, h1],
+        by rw [castAll_opt_plain (untyped_plain j hnn), h2]; rfl, by simp [Val.isEqual, h3]⟩
+  | .list t, hT, v, hw, hr, hf => by
+    simp only [Ty.wf] at hT
+    cases v <;> simp [jsonRepr] at hr
+    rename_i xs
+    simp only [Val.wf, noIntegralFloat] at hw hf
+    intro p
+    obtain ⟨js, vs', g1, g2, g3, g4⟩ := rtp_list fi t p xs (fun i x hx =>
+      rt_prog fi t hT x (vals_wf_get xs hw i x hx) (all_get xs hr i x hx) (noIntFloat_get xs hf i x hx)) 0
+    exact ⟨.arr js, .list vs', by simp [marshalWith, g1], by simp [unmarshalUntyped, castAll, g2, Except.map],
+      by simp [Val.isEqual, g3, g4]⟩
+  | .obj tfs, hT, v, hw, hr, hf => by
+    simp only [Ty.wf, Bool.and_eq_true] at hT
+    cases v <;> simp [jsonRepr] at hr
+    rename_i fs
+    simp only [Val.wf, Bool.and_eq_true, noIntegralFloat] at hw hf
+    intro p
+    have hdecl := rtp_declared fi tfs hT.2 fs hw.2 hr.1 hf
+    have hsub1 : ∀ k ∈ fs.keys, k ∈ tfs.keys := by
+      intro k hk; simpa [TyFields.hasKey] using hr.2 k hk
+    have hsub2 := jsonReprFields_keys tfs fs hr.1
+    obtain ⟨jfs, hjfs⟩ := marshalFields_some fi fs (by
+      intro k x hm
+      obtain ⟨t, ht⟩ := ty_mem_of_mem_keys tfs k (hsub1 k (mem_keys_of_mem fs k x hm))
+      obtain ⟨x0, h1, h2⟩ := hdecl k t ht
+      have := lookup_of_mem_nodup fs k x hw.1 hm
+      rw [this] at h1; cases h1
+      obtain ⟨j, _, hj, _⟩ := h2 []
+      exact ⟨j, hj⟩)
+    have hkeys := untypedFields_keys fi fs jfs hjfs
+    obtain ⟨g1, g2, g3, g4⟩ := rtp_assemble fs (unmarshalUntypedFields jfs) p tfs (by
+      intro k t ht
+      obtain ⟨x, h1, h2⟩ := hdecl k t ht
+      obtain ⟨j, v', e1, e2, e3⟩ := h2 (p ++ [.field k])
+      obtain ⟨j', f1, f2⟩ := marshalFields_lookup fi fs jfs hjfs k x h1
+      rw [e1] at f1; cases f1
+      exact ⟨x, unmarshalUntyped j, v', h1, by simp [untypedFields_lookup, f2], e2, e3⟩)
+    have hun : List.filter (fun k => !tfs.hasKey k) (unmarshalUntypedFields jfs).keys = [] := by
+      rw [hkeys]; simp only [List.filter_eq_nil_iff]; intro k hk'; simp [hr.2 k hk']
+    have hlen : (castFields false tfs (unmarshalUntypedFields jfs) p).out.length = fs.length := by
+      rw [← keys_length, ← keys_length, g3]
+      exact Nat.le_antisymm (length_le_of_nodup_subset _ _ hT.1 hsub2) (length_le_of_nodup_subset _ _ hw.1 hsub1)
+    refine ⟨.obj jfs, .obj (castFields false tfs (unmarshalUntypedFields jfs) p).out, by simp [marshalWith, hjfs], ?_, ?_⟩
+    · simp [unmarshalUntyped, castAll, g1, g2, hun]
+    · simp only [Val.isEqual, Bool.and_eq_true]
+      exact ⟨by simp [hlen], (isEqualIn_iff _ _).mpr g4⟩
+theorem rtp_declared (fi : Dy → Bool) : ∀ (tfs : TyFields), tfs.wf = true → ∀ (fs : Fields), fs.wf = true →
+    jsonReprFields tfs fs = true → noIntegralFloatFields fs = true → ∀ k t, (k, t) ∈ tfs.toList →
+    ∃ x, fs.lookup k = .some x ∧ RTP fi t x
+  | .nil, _, fs, _, _, _, k, t, hm => by simp [TyFields.toList] at hm
+  | .cons k' t' rest, hT, fs, hw, hr, hf, k, t, hm => by
+    simp only [TyFields.wf, Bool.and_eq_true] at hT
+    simp only [jsonReprFields, Bool.and_eq_true] at hr
+    simp only [TyFields.toList, List.mem_cons, Prod.mk.injEq] at hm
+    rcases hm with ⟨rfl, rfl⟩ | hm
+    · cases hl : fs.lookup k with
+      | none => simp [hl] at hr
+      | some x =>
+        simp only [hl] at hr
+        have hmem := lookup_mem fs k x hl
+        exact ⟨x, rfl, rt_prog fi t hT.1 x (mem_wf fs hw k x hmem) hr.1 (noIntFloat_mem fs hf k x hmem)⟩
+    · exact rtp_declared fi rest hT.2 fs hw hr.2 hf k t hm
+end
+
 end HmsProofs.Lemmas.ValJson
